@@ -721,9 +721,10 @@ def twin_fields(fields, rng):
 # ------------------------------------------------------------------------------------------ C10: documented edits
 
 class Chain:
-    """versions[0] is the base; versions[i+1] results from one documented compatible edit."""
-    def __init__(self, versions, notes):
-        self.versions, self.notes = versions, notes
+    """versions[0] is the base; versions[i+1] results from one documented compatible edit.  `extra[i]`: hand-made values of
+    version i in addition to the generated ones."""
+    def __init__(self, versions, notes, extra=None):
+        self.versions, self.notes, self.extra = versions, notes, extra or {}
 
 
 def all_fields_lists(ty, path=()):
@@ -941,6 +942,17 @@ def core_chains():
     a = t_st([F(0, t_opt(io2(1))), F(1, t_text("string"))], enc="m")
     b = t_st([F(0, t_opt(io2(2))), F(1, t_text("string"))], enc="m")
     out.append(Chain([a, b], ["base", "add variant 1 to an enum used as an optional field"]))
+    # hundreds of unknown variants rescued in ONE document (whatever a decoder counts per failed-and-rescued enum must not add up):
+    # a Vec of structs whose optional enum field holds the new variant; regular enum with a body, and index_only
+    for io in (False, True):
+        def en(n, io=io):
+            return t_en([Variant(i) for i in range(n)], index_only=True) if io else t_en([Variant(0), Variant(1, "p", [F(0, t_int("u8"))])] + [Variant(i, "n", [F(0, t_opt(t_int("u8")))]) for i in range(2, n)])
+        el = lambda n: t_st([F(0, t_opt(en(n))), F(1, t_int("u8"))])
+        a = t_st([F(0, t_vec(el(2))), F(1, t_int("u8"))])
+        b = t_st([F(0, t_vec(el(3))), F(1, t_int("u8"))])
+        newv = ("e", 2, [] if io else [("so", 7)])
+        many = lambda k: ("r", [("l", [("r", [("so", newv), i % 24]) for i in range(k)]), 9])
+        out.append(Chain([a, b], ["base", "add variant 2 to an enum used as an optional field of a Vec element"], extra={1: [many(126), many(127), many(128), many(300)]}))
     # K5: a tagged optional field added at a gap index, array encoding
     a = t_st([F(0, t_int("u8")), F(2, t_int("u8"))])
     b = t_st([F(0, t_int("u8")), F(1, t_opt(t_int("u8")), tag=5), F(2, t_int("u8"))])
@@ -1341,6 +1353,7 @@ def build(seed, tier, batch=0):
             names.append(em.top(v))
             vv = vg.struct_values(v, sz["chain_vals"])
             vv += variant_sweep(v, vg, vv[0])[:12] if vv else []
+            vv += ch.extra.get(len(vals), [])
             vals.append(vv)
         c.chains.append((ch, names, vals))
     c.source = em.source()
